@@ -8,7 +8,7 @@ Every call inside the body of `save` is classified, in evaluation order
   self._go_across(..) / self.to_dict(..) /
   self.register_eobject_epackage(..)            -> SBuild  (walks the model; may raise)
   json.dumps(..)                                -> SEncode (may raise)
-  tree.write(stream, ..)  [tree = ElementTree]  -> SEncode ; SWrite
+  tree.write(stream, ..)  [tree = ElementTree]  -> SWrite  (serialises while writing)
   stream.write(..)                              -> SWrite
   self.uri.close_stream()                       -> SClose
   a fixed list of calls without effect on the target (Element, QName, len,
@@ -84,7 +84,7 @@ class Effects:
                 tgt = dotted(c.args[0]) if c.args else None
                 if tgt is None or tgt != self.stream_var:
                     self.refuse(c, 'tree.write on something that is not the stream opened by open_out_stream')
-                return ['SEncode', 'SWrite']
+                return ['SWrite']
             if recv is not None and recv == self.stream_var:
                 return ['SWrite']
             self.refuse(c, 'write on something that is not the stream opened by open_out_stream')
